@@ -44,7 +44,7 @@ CHECKS = {
   note="publish.NewMessage is modelled (payload = JSON model of the real EventMessage; uuid and otel context constant); watermill transport is not executed. Concurrent emission is not part of this check.",
   ref="DESIGN §5 C16"),
  "C18": dict(
-  text="Bounded symbolic model checking of v2.ProcessBulk against a recording backend: bulks of 1..3 elements, the action of each element (four known, one unknown) and the error class enumerated, success/failure of each element and continueOnFailure as solver variables; executed calls (order, idempotency keys), one result per processed element at its position with the matching type, early stop and the failure signal are compared with the in-order reference; the same through bulkHandler (JSON body, continueOnFailure parameter absent or an arbitrary alphanumeric string of 1..4 bytes, status code, JSON answer); two bulk requests in a row (the second must run on its own keys and payloads); per-element arguments of ADD/DELETE_METADATA elements.",
+  text="Bounded symbolic model checking of v2.ProcessBulk against a recording backend: bulks of 1..3 elements, the kind of each element (four known actions, one unknown, a payload that does not decode, a metadata element on an unknown target type) and the error class enumerated, success/failure of each element and continueOnFailure as solver variables; executed calls (order, idempotency keys), one result per processed element at its position with the matching type, early stop and the failure signal are compared with the in-order reference; the same through bulkHandler (JSON body, continueOnFailure parameter absent or an arbitrary alphanumeric string of 1..4 bytes, status code, JSON answer); two bulk requests in a row (the second must run on its own keys and payloads); per-element arguments of ADD/DELETE_METADATA elements.",
   note="Element payloads are concrete well-formed JSON decoded by the JSON model; the inputs are Booleans and small choices, so the engine's forking does the exploration and the solver decides feasibility and the final formulas. chi routing is not executed; sync.Pool is modelled as always reusing.",
   ref="DESIGN §5 C18"),
  "C19": dict(
